@@ -587,7 +587,21 @@ func (s *VSim) handleGroup(b *VSimBroker, g *vsGroup, gc *VSimGroupCtx, act VSim
 			ev.Code = -101
 			return vsTyped(res)
 		}
-		for t, ps := range r.partitions {
+		if r.Version >= 2 {
+			res.Err = code // group-level code (v2+)
+		}
+		parts := r.partitions
+		if parts == nil && r.Version >= 2 && code == ErrNoError {
+			// null array = every partition the group has an offset for
+			parts = map[string][]int32{}
+			for key := range g.offsets {
+				var t string
+				var p int32
+				vsSplitTP(key, &t, &p)
+				parts[t] = append(parts[t], p)
+			}
+		}
+		for t, ps := range parts {
 			for _, p := range ps {
 				key := fmt.Sprintf("%s/%d", t, p)
 				blk := &OffsetFetchResponseBlock{Offset: -1, Err: code}
